@@ -5,7 +5,10 @@
  2. random dependency graphs over constants and structures: acyclic => accepted with predicted values,
     any cycle => rejected with E413/E415/E416;
  3. duplicate names of every kind in every order and distance;
- 4. type x position table for the documented well-formedness rules (E350-E359, E380, E433)."""
+ 4. type x position table for the documented well-formedness rules (E350-E359, E380, E433);
+ 5. every value type of nesting depth <= 3 over 7 wrappers and 3 bases in 7 declaration positions against the compositional
+    well-formedness rule;
+ 6. constant arrays whose length is a named constant (literal, derived, size-of) in every declaration order."""
 import itertools
 import json
 import re
@@ -368,8 +371,154 @@ def run_table(case):
     return {"verdict": HELD, "cov": cov, "nt": "row:" + name}
 
 
+# ---- 5. every value type up to nesting depth 3 in every declaration position
+
+WRAPPERS = [("ptr", "&%s"), ("view", "(%s)"), ("slice", "[:]%s"), ("endless", "[..]%s"), ("arraylike", "[]%s"),
+            ("array", "[4]%s"), ("named", "[N]%s")]
+BASES = ["i32", "void", "St"]
+POSITIONS = {
+    "variable": "fn f()\n{\n\tvar x: %s;\n}",
+    "constant": "const X: %s = 0;",
+    "parameter": "fn f(x: %s);",
+    "member": "struct Q\n{\n\tm: %s,\n}",
+    "return": "fn f() -> %s;",
+    "extern_param": "extern fn f(x: %s);",
+    "extern_return": "extern fn f() -> %s;",
+}
+ENUM_PRE = "struct St\n{\n\ta: i32,\n}\n\nconst N: usize = 3;\n\n"
+
+
+def enum_types(depth):
+    """(wrapper names outermost first, base, text)"""
+    out = []
+    for base in BASES:
+        level = [((), base, base)]
+        out += level
+        for _ in range(depth):
+            nxt = []
+            for (ws, b, text) in level:
+                for name, fmt in WRAPPERS:
+                    nxt.append(((name,) + ws, b, fmt % text))
+            out += nxt
+            level = nxt
+    return out
+
+
+def model_wellformed(ws, base):
+    """The compositional rule of value_type.rs / docs E350 as a reference: an element must be sized and itself valid; behind a
+    pointer or view there is no void, slice or view; the rule looks through any number of pointers."""
+    def can_be_element(ws, base):
+        if not ws:
+            return base != "void"
+        return ws[0] in ("array", "named", "arraylike", "ptr")
+
+    def inner(ws, base):
+        if not ws:
+            return base != "void"
+        w, rest = ws[0], ws[1:]
+        if w in ("slice", "view"):
+            return False
+        if w == "ptr":
+            return inner(rest, base)
+        return can_be_element(rest, base) and inner(rest, base)
+
+    if not ws:
+        return True
+    w, rest = ws[0], ws[1:]
+    if w in ("ptr", "view"):
+        return inner(rest, base)
+    return can_be_element(rest, base) and inner(rest, base)
+
+
+def run_type_enum(case):
+    _, ws, base, text = case
+    ws = tuple(ws)
+    wf = model_wellformed(ws, base)
+    cov = {"enum_types": 1, "enum_wellformed" if wf else "enum_illformed": 1}
+    verdicts = {}
+    for pos, fmt in POSITIONS.items():
+        src = ENUM_PRE + (fmt % text) + "\n\nfn main() -> i32\n{\n\treturn: 0\n}\n"
+        got = outcome(src, run=False)
+        verdicts[pos] = got
+        cov["enum_compiles"] = cov.get("enum_compiles", 0) + 1
+        replay = {"source": src, "type": text, "position": pos, "model_wellformed": wf}
+        shape = "%s of depth %d" % ("well-formed type" if wf else "ill-formed type", len(ws))
+        if got[0] == "crash":
+            return {"verdict": VIOLATED, "sig": "type `%s` as %s: %s" % (text, pos, got[1]), "detail": got[1], "replay": replay, "cov": cov}
+        if not wf:
+            if got[0] == "ok":
+                return {"verdict": VIOLATED, "sig": "ill-formed type `%s` accepted as %s" % (text, pos), "detail": shape, "replay": replay,
+                        "cov": cov}
+            if not (set(got[1]) & set(range(350, 360))):
+                return {"verdict": VIOLATED, "sig": "ill-formed type `%s` as %s rejected with %s only" % (text, pos, list(got[1])),
+                        "detail": shape, "replay": replay, "cov": cov}
+        else:
+            if got[0] == "rejected" and 350 in got[1]:
+                return {"verdict": VIOLATED, "sig": "well-formed type `%s` as %s rejected with E350" % (text, pos), "detail": shape,
+                        "replay": replay, "cov": cov}
+        cov["enum_%s_%s" % (pos, "accepted" if got[0] == "ok" else "rejected")] = 1
+    return {"verdict": HELD, "cov": cov, "nt": "type:" + text,
+            "sample": {"type": text, "model_wellformed": wf,
+                       "accepted_as": sorted(p for p, g in verdicts.items() if g[0] == "ok")} if len(text) % 7 == 0 and len(ws) == 3 else None}
+
+
+# ---- 6. constants whose array length is named: every permutation
+
+def named_length_cases(rng, n):
+    out = []
+    for i in range(n):
+        h = rng.randrange(1, 4)
+        form = rng.choice(["literal", "derived", "sum", "sizeof"])
+        decls = ["const HALF: usize = %d;" % h]
+        if form == "literal":
+            size = h
+            decls = ["const SIZE: usize = %d;" % h]
+        elif form == "derived":
+            size = 2 * h
+            decls.append("const SIZE: usize = 2 * HALF;")
+        elif form == "sum":
+            size = h + 1
+            decls.append("const SIZE: usize = HALF + 1;")
+        else:
+            size = 4 * h
+            decls.append("struct Pack\n{\n\tdata: [HALF]i32,\n}")
+            decls.append("const SIZE: usize = |:Pack|;")
+        vals = [rng.randrange(1, 90) for _ in range(size)]
+        decls.append("const TABLE: [SIZE]i32 = [%s];" % ", ".join(map(str, vals)))
+        if rng.random() < 0.5:
+            decls.append("struct Holder\n{\n\trow: [SIZE]i32,\n}")
+        decls.append("fn main() -> i32\n{\n\tvar total = 0;\n\tvar i: usize = 0;\n\t{\n\t\tif i == |TABLE|\n\t\t\tgoto end;\n"
+                     "\t\ttotal = total + TABLE[i];\n\t\ti = i + 1;\n\t\tloop;\n\t}\n\tend:\n\tprint!(total, \"\\n\");\n\treturn: 0\n}")
+        out.append(("named", decls, sum(vals), form))
+    return out
+
+
+def run_named(case):
+    _, decls, total, form = case
+    cov = {"named_length_programs": 1, "named_form_" + form: 1}
+    first = None
+    for p in itertools.permutations(range(len(decls))):
+        src = "\n\n".join(decls[q] for q in p) + "\n"
+        got = outcome(src)
+        cov["named_length_permutations"] = cov.get("named_length_permutations", 0) + 1
+        replay = {"source": src, "order": list(p), "expected_output": total}
+        if got[0] == "crash":
+            return {"verdict": VIOLATED, "sig": "named array length (%s): %s" % (form, got[1]), "detail": got[1], "replay": replay, "cov": cov}
+        if got[0] != "ok":
+            return {"verdict": VIOLATED, "sig": "constant array with a named length (%s) rejected with %s in some declaration order"
+                                                % (form, list(got[1])), "detail": list(p), "replay": replay, "cov": cov}
+        if got[1][0].decode("latin-1").strip() != str(total):
+            return {"verdict": VIOLATED, "sig": "constant array with a named length (%s): wrong output" % form,
+                    "detail": {"expected": total, "observed": repr(got[1])[:200]}, "replay": replay, "cov": cov}
+    return {"verdict": HELD, "cov": cov, "nt": "named:%s:%d" % (form, len(decls))}
+
+
 def run_case(case):
     k = case[0]
+    if k == "enum":
+        return run_type_enum(case)
+    if k == "named":
+        return run_named(case)
     if k == "perm":
         return run_perm(case)
     if k == "graph":
@@ -399,6 +548,8 @@ def main(tier, seed, replay=None):
     cases += [("graph", seed, i) for i in range(600 if q else 10000)]
     cases += [("table", n, s, w) for n, s, w in dup_cases()]
     cases += [("table", n, s, w) for n, s, w in type_table()]
+    cases += [("enum", ws, b, text) for ws, b, text in enum_types(3)]
+    cases += named_length_cases(common.rng_for(seed, PROP, "named"), 40 if q else 400)
     for r in common.run_sharded(run_case, cases):
         if r.get("verdict") is None and "harness_error" not in r:
             run.merge_counters(r.get("cov"))
